@@ -236,8 +236,6 @@ var (
 	c36TerminalRowNames = []string{"notfound", "plain", "disband", "error"}
 	c36ReceiverRowNames = []string{"notfound", "plain", "allowstranger", "error"}
 	c36TriNames         = []string{"false", "true", "error"}
-	c36Senders          = []string{"u1", "sys"}
-	c36Devices          = []string{"", c36SysDevice, "dev-x"}
 )
 
 func c36B(b bool) int64 {
